@@ -1018,7 +1018,7 @@ func x13RunPart(t *testing.T, part string) {
 		} else {
 			rng := r.CaseRand(i)
 			s := seeds[rng.Intn(len(seeds))]
-			c = x13Case{seed: s, muts: x13PickCombo(rng, s.muts)}
+			c = x13Case{seed: s, muts: x13PickCombo(rng, s.muts, func(k int) bool { return h.singleAccepted(s, k) })}
 		}
 		h.runCase(i, c, i < nSeeds)
 	}
@@ -1035,9 +1035,10 @@ func x13RunPart(t *testing.T, part string) {
 	}
 	r.Count("specs_total", totalSpecs)
 	r.Count("accepted_total", totalAcc)
-	if totalSpecs > 20 && totalAcc*3 < totalSpecs {
-		r.Inconclusive(fmt.Sprintf("part %s: acceptance rate %d/%d is below one third: the generator needs work", part, totalAcc, totalSpecs))
-	}
+	// the driver sums counters over parts and shards: the sum is >= 0 iff at least a third
+	// of all generated specs was accepted (DESIGN: otherwise the generator needs work)
+	r.Count("acceptance_margin(3*accepted-specs)", 3*totalAcc-totalSpecs)
+	r.Require("acceptance_margin(3*accepted-specs)", 0)
 	r.Require("seed_accepted", 1)
 }
 
@@ -1097,6 +1098,29 @@ func (h *x13H) runCase(i int, c x13Case, isSeed bool) {
 	if i%97 == 0 {
 		r.Sample(map[string]interface{}{"kind": c.seed.Kind, "mutations": descs, "outcome": outcome})
 	}
+}
+
+// singleAccepted tells (memoised) whether validation accepts the seed with mutation k alone.
+func (h *x13H) singleAccepted(s *x13Seed, k int) bool {
+	if s.acc == nil {
+		s.acc = map[int]bool{}
+	}
+	if v, ok := s.acc[k]; ok {
+		return v
+	}
+	tree := x13Clone(s.tree).(map[string]interface{})
+	s.muts[k].apply(tree)
+	var err error
+	switch s.Cat {
+	case x13FilterHTTP, x13FilterMQTT:
+		_, err = filters.NewSpec(h.env.super, "verif-pipeline", x13Export(tree))
+	case x13Resilience:
+		_, err = resilience.NewPolicy(x13Export(tree))
+	default:
+		_, err = supervisor.NewSpec(x13ToYAML(tree))
+	}
+	s.acc[k] = err == nil
+	return err == nil
 }
 
 func (h *x13H) validationError(seed *x13Seed, tree map[string]interface{}) string {
